@@ -752,6 +752,23 @@ func settlePhase(w *World, tr *vh.Trace, do func(Act) Obs, useUpdate bool, next 
 			next[e] = w.Elapsed() + ob.Ret
 		}
 	}
+	// a run that does not settle (a wedge) would otherwise record hundreds of thousands of identical polling steps: after
+	// `budget` recorded steps the rest of the phase is executed without being recorded (the "settled" line carries the outcome)
+	budget, recorded, doRec := vh.EnvInt("CORE_SETTLE_BUDGET", 4000), 0, do
+	do = func(a Act) Obs {
+		if recorded < budget {
+			recorded++
+			return doRec(a)
+		}
+		if !w.Enabled(a) {
+			return Obs{}
+		}
+		obs, _ := w.Step(a)
+		if obs.Panic != "" {
+			sum.Panics = append(sum.Panics, fmt.Sprintf("settle %+v: %s", a, obs.Panic))
+		}
+		return obs
+	}
 	limit := healAt + 300000
 	for len(sum.Panics) == 0 && !drained() && w.Elapsed() < limit {
 		for len(w.Net) > 0 {
@@ -1052,4 +1069,78 @@ func nextPoll(w *World, e int, ob Obs) int {
 		return tf
 	}
 	return now + 1
+}
+
+// TestCoreScripts executes hand-written boundary scripts (VERIF_IN/core_scripts.ndjson, one per line, written by
+// tools/checks_core.py: boundary_scripts) on two real KCP objects and records the usual trace; the monitors and the
+// conformance specification judge it like any other run. "DeliverAny" delivers the oldest datagram in flight, actions that
+// are not enabled are skipped.
+func TestCoreScripts(t *testing.T) {
+	in := vh.EnvStr("VERIF_IN", "")
+	if in == "" {
+		t.Skip("VERIF_IN not set")
+	}
+	f, err := os.Open(filepath.Join(in, "core_scripts.ndjson"))
+	if err != nil {
+		t.Skip("no scripts")
+	}
+	defer f.Close()
+	out := vh.OutDir(t)
+	tf, err := vh.OpenTraceFile(filepath.Join(out, "core_scripts.ndjson"))
+	vh.Must(err)
+	sum := newSummary()
+	sc := bufio.NewScanner(f)
+	sc.Buffer(make([]byte, 1<<20), 64<<20)
+	for sc.Scan() {
+		var s struct {
+			Meta struct {
+				Cfg    Cfg    `json:"cfg"`
+				Label  string `json:"label"`
+				Forged bool   `json:"forged"`
+			} `json:"meta"`
+			Actions []Act `json:"actions"`
+		}
+		vh.Must(json.Unmarshal(sc.Bytes(), &s))
+		synctest.Test(t, func(t *testing.T) {
+			w := NewWorld(s.Meta.Cfg, 0, 0, 0)
+			tr := &vh.Trace{}
+			for _, a := range s.Actions {
+				if a.Name == "DeliverAny" {
+					if len(w.Net) == 0 {
+						continue
+					}
+					a = Act{Name: "Deliver", E: w.Net[0].dst, A: 1}
+				}
+				if a.Name == "RecvPeek" { // the raw-core idiom: a buffer of exactly PeekSize() bytes
+					ps := w.K[a.E].PeekSize()
+					if ps < 0 {
+						continue
+					}
+					a = Act{Name: "Recv", E: a.E, A: ps}
+				}
+				if !w.Enabled(a) {
+					continue
+				}
+				obs, in := w.Step(a)
+				if a.Name == "Recv" && obs.Ret == -1 {
+					continue
+				}
+				record(tr, w, a, obs, in)
+				sum.Steps++
+				sum.Acts[a.Name]++
+				sum.Kinds[s.Meta.Label]++
+				if obs.Panic != "" {
+					sum.Panics = append(sum.Panics, fmt.Sprintf("%s %+v: %s", s.Meta.Label, a, obs.Panic))
+					break
+				}
+			}
+			tf.WriteTrace(map[string]any{"cfg": s.Meta.Cfg, "src": "script:" + s.Meta.Label, "clean": false, "forged": s.Meta.Forged}, tr)
+			sum.Behaviours++
+			sum.Nontrivial++
+			active = nil
+		})
+	}
+	vh.Must(tf.Close())
+	sum.Traces, sum.Lines = tf.N, tf.L
+	vh.WriteJSON(filepath.Join(out, "core_scripts.json"), sum)
 }
